@@ -22,6 +22,7 @@ DZ = {
     # lists that do NOT thicken with depth: refined around a layer interface at 0.6 m / a thick top compartment
     "refined": [0.1, 0.1, 0.2, 0.2] + [0.05] * 4 + [0.1] * 9,   # 1.7 m
     "thicktop": [0.3] + [0.1] * 14,                              # 1.7 m
+    "thickbottom": [0.1] * 6 + [0.2] * 3 + [0.5, 0.8],   # 2.5 m, the two bottom compartments are thick: the deepest centre lies at 2.1 m
     "few8": [0.1] * 4 + [0.2] * 4,  # few compartments: deepening for a deep-rooted crop thickens even the top one
 }
 
@@ -42,7 +43,10 @@ CLAY_OVER_SAND = {"type": "custom", "layers": [[0.4, 0.39, 0.54, 0.55, 35.0, 100
 
 LOAM_OVER_PAN = {"type": "custom", "layers": [[0.6, 0.10, 0.22, 0.41, 500.0, 100], [3.4, 0.30, 0.42, 0.52, 2.0, 100]]}   # perched water on a pan of 2 mm/day
 
+SAME_FC = {"type": "custom", "layers": [[0.6, 0.09, 0.33, 0.43, 150.0, 100], [3.4, 0.13, 0.33, 0.46, 100.0, 100]]}   # silt over silt loam: equal field capacity, smaller saturation on top
+
 SOILS = {
+    "samefc": SAME_FC,
     "loamoverpan": LOAM_OVER_PAN,
     "sandoverclay": SAND_OVER_CLAY,
     "clayoversand": CLAY_OVER_SAND,
@@ -84,6 +88,8 @@ IRR = {
     "smt70max5": {"method": 1, "kw": {"SMT": [70] * 4, "MaxIrr": 5}},
     "smt_cap60": {"method": 1, "kw": {"SMT": [80] * 4, "MaxIrrSeason": 60}},
     "int3": {"method": 2, "kw": {"IrrInterval": 3}},
+    "const40e90": {"method": 5, "kw": {"depth": 40, "AppEff": 90}},
+    "sched_e90": {"method": 3, "kw": {"AppEff": 90}, "schedule": "inseason"},
     "int7e40": {"method": 2, "kw": {"IrrInterval": 7, "AppEff": 40}},
     "sched": {"method": 3, "kw": {}, "schedule": "inseason"},
     "sched_cap30": {"method": 3, "kw": {"MaxIrrSeason": 30}, "schedule": "inseason"},   # the seasonal allowance cuts off a scheduled event
@@ -120,6 +126,9 @@ GW = {
     "0.8": {"method": "Constant", "dates": ["{start}"], "values": [0.8]},
     "1.5": {"method": "Constant", "dates": ["{start}"], "values": [1.5]},
     "2.5": {"method": "Constant", "dates": ["{start}"], "values": [2.5]},
+    "1.47": {"method": "Constant", "dates": ["{start}"], "values": [1.47]},
+    "2.15": {"method": "Constant", "dates": ["{start}"], "values": [2.15]},
+    "2.27": {"method": "Constant", "dates": ["{start}"], "values": [2.27]},
     "6": {"method": "Constant", "dates": ["{start}"], "values": [6.0]},
     "50": {"method": "Constant", "dates": ["{start}"], "values": [50.0]},
     # series are placed relative to the simulation start: [offset_days, depth]
@@ -127,6 +136,7 @@ GW = {
     "rising_v": {"method": "Variable", "series": [[0, 2.4], [30, 0.5], [9999, 0.5]]},
     "falling_v": {"method": "Variable", "series": [[0, 0.4], [25, 2.6], [9999, 3.0]]},
     "falling_c": {"method": "Constant", "series": [[0, 0.5], [15, 1.4], [28, 2.8]]},
+    "rising_above_zmin_v": {"method": "Variable", "series": [[0, 1.6], [14, 0.18], [22, 0.18], [40, 1.6], [9999, 1.6]]},   # shallower than every crop's minimum rooting depth for a week
 }
 
 # expert-level soil options (Soil keyword arguments); "default" leaves the constructor defaults
@@ -165,7 +175,7 @@ WINDOWS = {  # (start offset in days relative to first planting, n seasons, trai
 }
 
 WATER_MENUS = {
-    "soil": ["SandyLoam", "Sand", "Clay", "Paddy", "custom3", "ClayLoam", "sandoverclay", "clayoversand", "custom3u", "customtex", "tex60", "loamoverpan"],
+    "soil": ["SandyLoam", "Sand", "Clay", "Paddy", "custom3", "ClayLoam", "sandoverclay", "clayoversand", "custom3u", "customtex", "tex60", "loamoverpan", "samefc"],
     "dz": ["d12", "nonuni", "deep30", "few8", "refined", "thicktop"],
     "iwc": IWC_KINDS,
     "irr": ["none", "smt", "smt100e70", "int3", "sched", "net80", "net50", "net100", "const8e70", "const40e40", "smt_cap60", "smt_e72.5", "const8e87.75", "int3e62.5"],
@@ -378,6 +388,8 @@ WATER_BASES = [
     _b(soil="tex60", iwc="WP", irr="none", word="dry", crop="maize.2"),
     # three contrasting layers with float-unlucky boundaries under a shallow table (every compartment is driven to its own layer's limits)
     _b(soil="custom3u", iwc="Pct50", gw="0.8", dz="nonuni", word="dry", crop="cotton.2", irr="none"),
+    # two layers with the SAME field capacity but different saturation, a table just below their interface
+    _b(soil="samefc", iwc="Pct50", gw="0.8", dz="deep30", word="normal", crop="cotton.2", irr="none", win="w2"),
     # seasons ended by a user-given harvest date (before maturity) with water still ponded behind in-season bunds, off-season simulated
     # and unbunded: the harvest day is the bund-removal day
     _b(soil="Paddy", iwc="SAT", field="bunds200", fallow="none", irr="const40e40", off=True, win="w2", crop="rice.2", harvest=12, word="showers"),
